@@ -7,7 +7,7 @@ fn mapf(x: u8) -> u8 { x }
 fn ffrom(x: u8) -> u8 { x }
 fn ftry(x: u8) -> Result<u8, Infallible> { Ok(x) }
 #[derive(Deserr)]
-#[deserr(rename_all = camelCase, error = deserr::errors::JsonError, tag = "t", deny_unknown_fields, from(u8) = mk_from)]
+#[deserr(error = deserr::errors::JsonError, tag = "t", deny_unknown_fields, try_from(u8) = mk_try -> std::convert::Infallible, validate = vfn -> std::convert::Infallible)]
 struct T { a: u8 }
 fn mk_from(x: u8) -> T { T { a: x } }
 fn mk_try(x: u8) -> Result<T, Infallible> { Ok(T { a: x }) }
